@@ -44,6 +44,12 @@ VALS["inst2"] = {
     "a": {"rk": pref("k", "a"), "rj": pref("j", "a"), "s1": sig("s1"), "nc1": nc("n1")},
     "c": {"rk": pref("k", "a"), "rj": pref("j", "a"), "s1": sig("s1"), "s2": sig("s2")},
 }
+# members of a bundle instance `b3` that nothing else refers to (it is observed through a whole-bundle connection): a
+# member reference that was replaced is dead, and other members are first referred to after it
+VALS["instb"] = {
+    "a": {"b3x": bref("b3", "x"), "s1": sig("s1")},
+    "b": {"b3y": bref("b3", "y"), "v": sig("v")},
+}
 CONNECT_VERBS = ["call", "setattr", "connect"]
 
 
@@ -79,7 +85,9 @@ def base_design(kind):
         jconns = [("a", sig("ja")), ("c", sig("jc"))]
     decls.append(("inst", "j", ("mod", cm), jconns))
     decls.append(("inst", "k", ("mod", cm), []))
-    if kind in ("inst", "inst2"):
+    if kind == "instb":
+        decls += [("sig", "qa", 1), ("sig", "qb", 2), ("binst", "b3", "B1"), ("inst", "qb3", ("mod", "Child"), [("a", sig("qa")), ("b", sig("qb")), ("t", b("b3"))])]
+    if kind in ("inst", "inst2", "instb"):
         decls.append(("inst", "i", ("mod", cm), []))
     elif kind == "array":
         decls.append(("array", "i", ("mod", cm), 2, []))
@@ -464,9 +472,9 @@ def features(kind, hist):
 
 
 def run(ctx):
-    plans = [("inst", 2), ("array", 2), ("pair", 2), ("inst2", 3)] if ctx.quick else [("inst", 3), ("array", 2), ("pair", 3), ("inst2", 4)]
+    plans = [("inst", 2), ("array", 2), ("pair", 2), ("inst2", 3), ("instb", 3)] if ctx.quick else [("inst", 3), ("array", 2), ("pair", 3), ("inst2", 4), ("instb", 4)]
     for kind, depth in plans:
-        hs = histories(kind, depth, verbs_reduced=(depth >= 3))
+        hs = histories(kind, depth, verbs_reduced=(depth >= 3 and kind != "instb"))
         items = [(kind, hh) for hh in hs]
         res = ctx.pmap(_one, items, chunk=100)
         for (k, hh), r in zip(items, res):
